@@ -4602,6 +4602,13 @@ XPath::predicates(
         }
         else
         {
+            // The predicate has changed the context node list in place.  Push
+            // it again, so that the execution context does not answer position()
+            // for the next predicate from what it cached for this one.
+            executionContext.popContextNodeList();
+
+            executionContext.pushContextNodeList(subQueryResults);
+
             theLength = subQueryResults.getLength();
         }
     }
